@@ -70,7 +70,7 @@ pub fn main_selftest(mode: &str) -> i32 {
     println!("selftest: seam alive (hash keys controlled, file operations traced)");
     // 2. replay determinism: same seed => same event-log digest, in fresh processes, at several worker counts
     let (seeds, worker_counts): (Vec<u64>, Vec<usize>) = if mode == "quick" { (vec![1, 2], vec![2, 16]) } else { ((1..=12).collect(), vec![1, 4, 16]) };
-    for engine in ["c01", "c19"] {
+    for engine in ["c01", "c19", "c20"] {
         for &s in &seeds {
             let mut first: Option<String> = None;
             for &w in &worker_counts {
